@@ -3,6 +3,8 @@ package gen
 import (
 	"strings"
 
+	"github.com/zclconf/go-cty/cty"
+
 	"github.com/hashicorp/hcl/v2"
 	"github.com/hashicorp/hcl/v2/hclsyntax"
 
@@ -135,4 +137,63 @@ func isRuneStart(b byte) bool { return b&0xC0 != 0x80 }
 // TrimToRune makes sure a byte prefix does not end inside a multi-byte rune.
 func TrimToRune(s string) string {
 	return strings.ToValidUTF8(s, "")
+}
+
+// ValueWorld generates a world that is all about values: one path whose schema is a flat
+// set of any-expression attributes of rich types (objects, maps / lists / sets of objects,
+// tuples, primitives, dynamic), addressable `variable` blocks the references in the values
+// resolve to, and functions with fixed and variadic parameters. Values are nested up to
+// depth 3 (operators, conditionals, calls, index / for expressions, templates, constructors
+// with literal and non-literal keys).
+func (g G) ValueWorld(co CfgOpts) m.WorldM {
+	anyOfT := func(t cty.Type) m.AttrM {
+		return m.AttrM{Flag: "optional", Cons: m.ConsM{K: "any", Ty: m.TyOf(t)}}
+	}
+	small := cty.Object(map[string]cty.Type{"a": cty.String, "n": cty.Number})
+	obj := cty.Object(map[string]cty.Type{"a": cty.String, "n": cty.Number, "b": cty.Bool, "l": cty.List(cty.Number), "o": small})
+	root := m.BodyM{Attrs: map[string]m.AttrM{
+		"o1": anyOfT(obj), "o2": anyOfT(small), "m1": anyOfT(cty.Map(small)), "l1": anyOfT(cty.List(small)), "sb": anyOfT(cty.Set(cty.Bool)),
+		"t1": anyOfT(cty.Tuple([]cty.Type{cty.String, cty.Number, cty.Bool})), "ms": anyOfT(cty.Map(cty.String)), "ls": anyOfT(cty.List(cty.String)),
+		"s": anyOfT(cty.String), "n": anyOfT(cty.Number), "b": anyOfT(cty.Bool), "d": anyOfT(cty.DynamicPseudoType), "ml": anyOfT(cty.Map(cty.List(cty.String))),
+	}, Blocks: map[string]m.BlockM{
+		"variable": {
+			Labels: []m.LabelM{{Name: "name"}},
+			Body: &m.BodyM{Attrs: map[string]m.AttrM{
+				"type":    {Flag: "optional", Cons: m.ConsM{K: "typedecl"}},
+				"default": anyOfT(cty.DynamicPseudoType),
+			}},
+			Addr: &m.BlockAddrM{Steps: []m.StepM{{K: "static", Name: "var"}, {K: "label", Index: 0}}, Scope: "variable",
+				HasAsTypeOf: true, AsTypeOf: "type", AsReference: g.Chance(40)},
+		},
+	}}
+	funcs := map[string]m.FuncM{
+		"f":     {Ret: m.TyOf(cty.String), Params: []m.ParamM{{Name: "p0", Ty: m.TyOf(cty.String)}}},
+		"fn":    {Ret: m.TyOf(cty.Number), Params: []m.ParamM{{Name: "p0", Ty: m.TyOf(cty.Number)}}, VarParam: &m.ParamM{Name: "rest", Ty: m.TyOf(cty.Number)}},
+		"join":  {Ret: m.TyOf(cty.String), Params: []m.ParamM{{Name: "sep", Ty: m.TyOf(cty.String)}}, VarParam: &m.ParamM{Name: "lists", Ty: m.TyOf(cty.List(cty.String))}},
+		"g":     {Ret: m.TyOf(cty.DynamicPseudoType), Params: []m.ParamM{{Name: "p0", Ty: m.TyOf(cty.DynamicPseudoType)}, {Name: "p1", Ty: m.TyOf(cty.Bool)}}},
+		"lower": {Ret: m.TyOf(cty.String), Params: []m.ParamM{{Name: "str", Ty: m.TyOf(cty.String)}}},
+		"ns::f": {Ret: m.TyOf(cty.Bool)},
+		"keys":  {Ret: m.TyOf(cty.List(cty.String)), Params: []m.ParamM{{Name: "m", Ty: m.TyOf(cty.Map(cty.DynamicPseudoType))}}},
+	}
+	co.Funcs = funcs
+	if co.Depth == 0 {
+		co.Depth = 3
+	}
+	co.NoDynamic = true
+	co.KeyHeavy = g.Chance(50)
+	p := m.PathM{Path: PathNames[0], Schema: &root, Funcs: funcs, Validators: g.Chance(50)}
+	decl := "variable \"a\" {\n  default = \"x\"\n}\nvariable \"ab\" {\n  type = bool\n}\nvariable \"aws\" {\n  type = map(string)\n}\n"
+	nf := g.Int(1, 2)
+	for j := 0; j < nf; j++ {
+		text := g.Config(m.BodyM{Attrs: root.Attrs}, co)
+		if j == 0 {
+			if g.Bool() {
+				text = decl + text
+			} else {
+				text += decl
+			}
+		}
+		p.Files = append(p.Files, m.FileM{Name: []string{"main.tf", "b.tf"}[j], Text: text})
+	}
+	return m.WorldM{Ctx: g.Ctx(), Paths: []m.PathM{p}}
 }
